@@ -328,15 +328,37 @@ class HistGen:
         return {'op': 'rename', 'el': ref, 'new': new, 'fault': ft}
 
     def f_set_props(self, v, valid):
+        """set_properties on an existing element of any class; about half of the calls also carry keywords whose
+        value is None (preferably naming a property the element currently has), among good and bad ones"""
         r = self.rng
         els = self.elements(v)
         if not els:
             return None
-        ref, n, sibs = r.choice(els)
+        # elements that have something set are more interesting for the None-valued keywords
+        rich = [e for e in els if any(k in e[1][4] for k in ('"Capacities"', '"Labels"', '"Details"'))]
+        ref, n, sibs = r.choice(rich if rich and r.random() < 0.7 else els)
+        rest = json.loads(n[4])
+        have = [kw for (prop, kw) in (('Capacities', 'capacities'), ('Labels', 'labels'), ('Details', 'details')) if prop in rest]
+        nones = []
+        if r.random() < 0.6:
+            pool = have if have and r.random() < 0.8 else ['capacities', 'labels', 'details']
+            nones = [[k, None] for k in r.sample(pool, r.randrange(1, len(pool) + 1))]
+        def mix(kw):
+            kw = [x for x in kw if x[0] not in [y[0] for y in nones]]
+            out = list(kw)
+            for x in nones:
+                out.insert(r.randrange(0, len(out) + 1), x)
+            return out
         if valid:
-            return {'op': 'set_props', 'el': ref, 'kw': self.kw()[0] or [['details', ['raw', 'd%d' % self.k]]]}
+            kw = self.kw()[0] or [['details', ['raw', 'd%d' % self.k]]]
+            return {'op': 'set_props', 'el': ref, 'kw': mix(kw) or kw}
         kw, pos = self.kw(bad=True)
-        return {'op': 'set_props', 'el': ref, 'kw': kw, 'pos': pos, 'fault': 'bad_prop'}
+        bad = kw[pos]
+        kw = mix(kw)
+        if bad not in kw:
+            kw.append(bad)
+        return {'op': 'set_props', 'el': ref, 'kw': kw, 'pos': kw.index(bad),
+                'fault': 'bad_prop_with_none' if nones else 'bad_prop'}
 
     def f_remove_link(self, v, valid):
         r = self.rng
